@@ -7,7 +7,6 @@ import (
 	"errors"
 	"fmt"
 	"strings"
-	"sync"
 	"time"
 
 	metadatapb "github.com/KafScale/platform/pkg/gen/metadata"
@@ -89,7 +88,7 @@ type Store struct {
 	Inner metadata.Store
 	Name  string
 	LatUs int64
-	mu    sync.Mutex
+	mu    simrt.QuietMutex
 	Log   []StoreWrite
 	Tags  map[string]string // task name prefix -> tag
 }
